@@ -230,6 +230,7 @@ let run (op : string) (args : string list) : string =
        | Fail ELine -> "E:Line" | Fail EVar -> "E:Var" | Fail EInt -> "E:Int"
        | Fail (EMissing v) -> "E:Missing:" ^ string_of_int (idx_of_var v all_vars 0)
        | Panic _ -> "PANIC" | OutOfFuel -> "FUEL")
+  | "sum.canon", [t] -> if is_canonical (str_of_arg t) then "T" else "F"
   | "stream", chunks ->
       let rec go st cs acc =
         match cs with
